@@ -671,6 +671,200 @@ def oracle_truthy(v, line, F, stats):
             F.add("truthiness", case, "length %s of a container with %d members" % (f[1][1:], len(v[1])))
 
 
+# ------------------------------------------------------------------ histories on one container object
+# A container is looked at, changed through one of its mutating entry points (methods, the Container interface behind
+# `c[k] = v` and the delete() builtin, the Go API), and looked at again - by every observer the property names
+# (in, iteration, sorted, len, truthiness) and by the other readers of the same state (list, keys, printing, JSON,
+# indexing, ==, copies).  Judged on the implementation's answers alone:
+#   * the laws of the property at every step (in <-> iterating and comparing; len = number iterated; truthy <-> len != 0;
+#     sorted / list / keys are permutations of the iteration);
+#   * the post-condition of the operation on the membership test of its own argument;
+#   * history independence: every observer answers on the container exactly as on a NEW container built from the
+#     container's raw contents at that moment (c15obs builds it, see harness/cmd/c15obs/history.go).
+
+H_OBS = "ntmieslkpjgzx"
+H_OBS_NAME = {"n": "len", "t": "truthiness", "m": "in", "i": "iteration", "e": "iteration (entries)", "s": "sorted",
+              "l": "list()", "k": "keys()", "p": "string() / printing", "j": "JSON", "g": "indexing", "z": "==",
+              "x": "copying methods"}
+H_MUT = {"S": ["add", "add", "add2", "remove", "remove", "delete", "delete", "delete", "clear", "setitem"],
+         "M": ["set", "set", "mset", "delete", "delete", "mdelete", "pop", "pop", "clear", "setdefault", "update"],
+         "L": ["append", "append", "extend", "insert", "pop", "pop", "remove", "remove", "clear", "reverse", "sort", "setidx",
+               "delete", "delete"]}
+H_INDEXED = ("insert", "pop", "setidx")     # first argument of these list operations is a literal index
+
+
+def gen_plain(r, depth=1):
+    """a value without errors and NaN (errors as script globals are a subject of their own)"""
+    while True:
+        v = gen_value(r, depth) if r.chance(1, 4) else gen_scalar(r)
+        if not has_kind(v, "e") and not has_nan(v):
+            return v
+
+
+def gen_history(r):
+    kind = r.choice("SSSSMML")
+    if kind == "S":
+        u = []
+        for _ in range(4 + r.below(4)):
+            v = cousin(r, r.choice(u)) if u and r.chance(1, 3) else gen_hashable(r)
+            if hashable(v) and not has_nan(v):
+                u.append(v)
+        cont = ("S", dedup_set([x for x in u if r.chance(2, 3)]))
+    elif kind == "M":
+        ks = [("s", k) for k in KEYS if r.chance(3, 5)] or [("s", b"a")]
+        u = ks + [gen_plain(r) for _ in range(2 + r.below(3))]
+        cont = ("M", [(k[1], r.choice(u)) for k in ks if r.chance(2, 3)])
+    else:
+        u = [gen_plain(r) for _ in range(3 + r.below(4))]
+        if r.chance(1, 2):
+            u = [x if x[0] in "idy" else ("i", r.below(5)) for x in u]     # sortable lists
+        cont = ("L", [r.choice(u) for _ in range(r.below(6))])
+    ops = []
+    nsteps = 3 + r.below(7)
+    for k in range(nsteps):
+        if k == 0 and r.chance(3, 4):
+            name = "obs"
+        elif r.chance(1, 8):
+            name = "obs"
+        else:
+            name = r.choice(H_MUT[kind])
+        a, b = r.below(len(u)), r.below(len(u))
+        if kind == "L" and (name in H_INDEXED or name == "delete"):
+            a = r.below(9) - 3
+        if r.chance(1, 2):
+            letters = list(H_OBS)
+        else:
+            letters = [r.choice(H_OBS) for _ in range(1 + r.below(5))]
+            letters = [x for i, x in enumerate(letters) if x not in letters[:i]]
+        # shuffle
+        for i in range(len(letters) - 1, 0, -1):
+            j = r.below(i + 1)
+            letters[i], letters[j] = letters[j], letters[i]
+        ops.append("%s:%d:%d:%s" % (name, a, b, "".join(letters)))
+    return kind, cont, u, ops
+
+
+def _plist(t):
+    """parse the text of a list value; None when it is something else"""
+    try:
+        v, pos = parse_text(t.split())
+    except (ValueError, IndexError):
+        return None
+    return v[1] if v[0] == "L" else None
+
+
+def _bit(v):
+    return {"t": "1", "f": "0"}.get(v[0], "X")
+
+
+def oracle_history(route, kind, cont, u, ops, line, obs, F, stats):
+    base = {"route": "script" if route == "h" else "api", "case": line}
+    try:
+        d = json.loads(obs)
+        steps = d["steps"]
+    except (ValueError, KeyError, TypeError):
+        F.add("observation", dict(base, impl=obs[:300]), "the implementation side produced no observation")
+        return
+    if len(steps) != len(ops):
+        F.add("observation", dict(base, impl=obs[:300]), "%d steps observed of %d" % (len(steps), len(ops)))
+        return
+    stats["histories"] += 1
+    for k, (st, optext) in enumerate(zip(steps, ops)):
+        name, a, b, letters = optext.split(":")
+        a, b = int(a), int(b)
+        o, f = st["o"], st["f"]
+        case = dict(base, step=k, operation=optext, status=st["st"],
+                    history=" ".join(x.rsplit(":", 1)[0] for x in ops[:k + 1]))
+        if "!" in o or "!" in f:
+            F.add("observation", dict(case, impl=o.get("!") or f.get("!")), "the observers of step %d could not be evaluated" % k)
+            continue
+        stats["history_steps"] += 1
+        if name != "obs" and st["st"] == "ok":
+            stats["history_mutations"] += 1
+        # history independence
+        for l in letters:
+            if o.get(l) != f.get(l):
+                F.add("a container with a history equals a new one with the same contents",
+                      dict(case, observer=H_OBS_NAME[l], answered=o.get(l), new_container_answers=f.get(l)),
+                      "after %s, %s answers differently on the container than on a new %s with the same contents"
+                      % (case["history"], H_OBS_NAME[l], TAGNAME[kind]))
+        n = t = m = it = q = None
+        if "n" in o and o["n"].startswith("i"):
+            n = int(o["n"][1:])
+        if "t" in o and o["t"] in "tf":
+            t = o["t"] == "t"
+        if "m" in o:
+            m = _plist(o["m"])
+        if "i" in o:
+            iq = _plist(o["i"])
+            if iq is not None and len(iq) == 2 and iq[0][0] == "L" and iq[1][0] == "L":
+                it, q = iq[0][1], iq[1][1]
+        if n is not None and it is not None and n != len(it):
+            F.add("len agrees with iterating", case, "len is %d, iteration yields %d elements" % (n, len(it)))
+        if n is not None and t is not None and t != (n != 0):
+            F.add("truthiness", dict(case), "truthiness %s but length %d" % (t, n))
+        if t is not None and it is not None and t != (len(it) != 0):
+            F.add("truthiness", dict(case), "truthiness %s but iteration yields %d elements" % (t, len(it)))
+        if m is not None and it is not None and q is not None and len(m) == len(u) == len(q):
+            members = [(e[1], ("n",)) for e in it if e[0] == "s"] if kind == "M" else it
+            if len(members) == len(it):
+                for x, mb, row in zip(u, m, q):
+                    if _bit(mb) == "X" or row[0] != "L":
+                        continue
+                    before = len(F.viol)
+                    oracle_contains((kind, members), x, "I%s Q%s" % (_bit(mb), "".join(_bit(e) for e in row[1])),
+                                    base["route"], F, stats)
+                    for v in F.viol[before:]:
+                        v["case"] = dict(case, **v["case"])
+        for l, nm in (("s", "sorted"), ("l", "list()"), ("k", "keys()")):
+            if l in o and it is not None:
+                got = _plist(o[l])
+                if got is None:
+                    continue            # an error answer: judged by the comparison with the new container
+                if l == "k" and kind == "L":
+                    if len(got) != len(it):
+                        F.add("%s agrees with iterating" % nm, case, "%d keys for %d elements" % (len(got), len(it)))
+                    continue
+                if sorted(text(x) for x in got) != sorted(text(x) for x in it):
+                    F.add("%s is a permutation of the iteration" % nm, dict(case, answered=o[l], iteration=o["i"]),
+                          "%s yields other members than iterating" % nm)
+        # post-condition of the operation on its own argument
+        if m is not None and st["st"] == "ok" and len(m) == len(u):
+            want = None
+            args = [a]
+            if (kind, name) in (("S", "add"), ("M", "set"), ("M", "mset"), ("M", "setdefault"), ("M", "update"), ("L", "append")):
+                want = "1"
+            elif (kind, name) == ("S", "add2"):
+                want, args = "1", [a, b]
+            elif (kind, name) in (("S", "remove"), ("S", "delete"), ("M", "delete"), ("M", "mdelete"), ("M", "pop")):
+                want = "0"
+            for i in args:
+                if kind == "M" and u[i][0] != "s":
+                    continue            # a byte_slice is accepted as a key by the methods and is not `in` the map (known class)
+                if want is not None and _bit(m[i]) in "01" and _bit(m[i]) != want:
+                    F.add("membership after the operation", dict(case, x=text(u[i])),
+                          "after a successful %s(x), x in c is %s" % (name, _bit(m[i])))
+        if name == "clear" and st["st"] == "ok" and n not in (None, 0):
+            F.add("membership after the operation", case, "len is %d after clear" % n)
+
+
+def run_histories(obs, rng, tier, work, F, stats):
+    n = 2500 if tier == "quick" else 60000
+    cases = []
+    for _ in range(n):
+        kind, cont, u, ops = gen_history(rng)
+        body = "%s %s %s" % (text(cont), text(("L", u)), " ".join(ops))
+        cases.append(("H", kind, cont, u, ops, "H " + body))
+        cases.append(("h", kind, cont, u, ops, "h " + body))
+    lines = [c[5] for c in cases]
+    got, err = run_sharded(obs, lines, work, "hist", C.NCPU)
+    if got is None:
+        return None, err
+    for (route, kind, cont, u, ops, line), g in zip(cases, got):
+        oracle_history(route, kind, cont, u, ops, line, g, F, stats)
+    return len(lines), ""
+
+
 # ------------------------------------------------------------------ case generation
 
 def gen_cases(rng, tier):
@@ -948,7 +1142,7 @@ def _body(res, tier, obs, model, work, proved):
     stats = {k: 0 for k in ("nan_skipped", "ordered_pairs", "numeric_pairs", "slot_pairs", "typed_triples", "eq_chains",
                             "ordered_triples", "le_chains", "contains", "contains_true", "sort_comparable",
                             "sort_incomparable", "sort_moved", "sets", "sets_with_merges", "truthy_containers",
-                            "route_pairs", "route_differences")}
+                            "route_pairs", "route_differences", "histories", "history_steps", "history_mutations")}
     nontrivial = set()
     kinds = {}
     parsed = {}
@@ -1003,9 +1197,15 @@ def _body(res, tier, obs, model, work, proved):
             route = "script" if cases[base][0] == "p" else "api"
             oracle_triple(a, b, c, parsed[base], parsed[base + 1], parsed[base + 2], route, F, stats)
 
+    nh, herr = run_histories(obs, rng, tier, work, F, stats)
+    if nh is None:
+        res.violation({"property": PROP, "kind": "harness-run-failed", "stage": "c15obs histories", "log": herr},
+                      nofail=True, tag="run")
+        return
+
     known_ids = load_known_ids()
 
-    evals = len(lines)
+    evals = len(lines) + nh
     cov["evaluations"] = evals
     cov["distinct_nontrivial"] = len(nontrivial)
     cov["rule"] = ("values generated from C.Rng(seed): scalars at boundary values (ints around 2^53, 2^63, byte range; floats "
@@ -1017,7 +1217,10 @@ def _body(res, tier, obs, model, work, proved):
                    "compared). Every case goes through object.Compare/Equals/HashKey/Contains/builtins.Sorted and a "
                    "subset also through scripts (== < in sorted, set literals). Non-trivial = distinct pairs that are == "
                    "without being the same text or are strictly ordered, membership tests that answer true, sorts that move "
-                   "an element, set inputs that merge members.")
+                   "an element, set inputs that merge members. Histories (oracle only, both routes): one set / map / list object "
+                   "is observed, changed through its methods, `c[k] = v`, the delete() builtin or the Go API, and observed "
+                   "again by every reader (in, iteration, sorted, len, truthiness, list, keys, printing, JSON, indexing, ==, "
+                   "copies), each also on a new container with the same raw contents.")
     cov["samples"] = [{"case": lines[nc + i], "impl": go[nc + i], "model": mo[nc + i]}
                       for i in range(0, len(cases), max(1, len(cases) // 14))][:14]
     cov["correspondence"] = {"cases": evals, "differences": ndiff, "unparsable": badcase, "first_differences": diffs[:5]}
